@@ -25,6 +25,8 @@ EXPLANATION = (
 
 
 def run(ctx: Ctx) -> None:
+    from ..rules import tableau as _tbx
+    _tbx.rule_xz_rowops(ctx, ["graphiq/backends/stabilizer/functions/linalg.py", "graphiq/backends/stabilizer/functions/stabilizer.py"])
     from ..rules import echelon as _echelon
     _echelon.arm(ctx)
     # generic rules first: an undecidable clause further down (AnalysisError) must not hide their findings
